@@ -104,6 +104,14 @@ add('C17', "spec/SafeEval.tla states the property's policy over abstract express
     "Effects are observed through audit events for sentinel paths/modules and recorder functions, not through OS-level tracing.",
     "TLA+ specs SafeEval (policy, exhaustive trees) and ConstLoop (model-checked) + concretised replay over all builtins of the interpreter", "5 C17, 3.7")
 
+add('C16', "spec/LeftRec.tla evaluates PegGrammar's left-call relation (Nullable, LeftCalls, OnLeftCycle, cycle components) on every rule graph of "
+    "the universe (all 1-rule, a deterministic slice of the 2-rule and a sample of the 3-rule grammars whose bodies are 1-2 options [prefix] target; "
+    "all of them in the thorough tier) and TLC checks the laws of the relation; each grammar is compiled with left recursion off (GrammarError <=> "
+    "some rule on a left cycle) and on (rules on no cycle memoized and unmarked; every cycle component has a leader, read back from the model), and a "
+    "battery of short inputs is parsed under a recursion limit and wall-clock guard (RecursionError / timeout = violation).",
+    "Trusted: TLC, projections. Grammars with a nullable rule call in a prefix (the property's proviso) are checked dynamically only.",
+    "TLA+ spec LeftRec/PegGrammar (static relation, exhaustive rule graphs) evaluated by TLC + replay of verdicts, marks and input battery", "5 C16, 3.7")
+
 import sys
 checks = [C[p] for p in props if p in C]
 na = [{"property_id": p, "reason": "check not built yet in this round (build in progress; DESIGN.md section 10 gives the order)"} for p in props if p not in C]
